@@ -28,7 +28,7 @@ PROPS = {
     'C05': _p('exploration'),
     'C06': _p('proof', explanation='every finite-function / semifinite-function operation under a Verus contract stating its set-theoretic table; coequalizer against the universal property (is_coeq); coequalizer_universal iff constant on fibres'),
     'C07': _p('proof', explanation='every array primitive of the Vec backend under a Verus contract stating its scalar definition; bodies extracted from /repo each run', kani_quick=True),
-    'C08': _p('exploration'),
+    'C08': _p('proof', explanation='every segmented-array operation under a Verus contract in list-of-lists (segment/offset) form plus the size invariant; iterator next/len/size_hint; checked constructors accept iff'),
     'C09': _p('exploration'),
     'C10': _p('exploration'),
     'C11': _p('exploration'),
